@@ -56,7 +56,7 @@ theorem C03_turn (g : Game) :
 well-formed deals at a chance node; at a choice node the actor is a live player with chips
 behind and the accepted actions are: fold iff facing a bet, check iff not, call for exactly the
 outstanding amount when it is less than the stack, all-in for exactly the stack, and every raise
-from `outstanding + max outstanding BB` (by `C03Bisim.lastRaise_spec` this is
+from `outstanding + max outstanding BB` (by `permitted_rel` in `C03Bisim.lean` this is
 `outstanding + max lastRaise BB`) up to one chip short of all-in. Blinds are never accepted. -/
 theorem C03_memoryless {g : Game} (h : GameInv g) :
     (turn g = Turn.terminal → ∀ a, isAllowed g a = false) ∧
@@ -125,5 +125,212 @@ theorem C03_reject {g : Game} (a : Action) :
   · intro h ha
     rw [step?_eq h]; simp only [ha, if_true]
     exact ⟨trivial, inv_act h ha⟩
+
+/-- betting on the current street is closed: both live players have acted (`ticker > thr`) and
+their bets are matched, or both are all-in -/
+def Closed (g : Game) : Prop :=
+  (g.s0.state = Status.betting ∧ g.s1.state = Status.betting ∧ g.s0.stake = g.s1.stake ∧
+    g.ticker > thr g) ∨
+  (g.s0.state = Status.shoving ∧ g.s1.state = Status.shoving)
+
+/-- **C03, dealing.** A street is dealt only when betting is closed, never on the river, and the
+deal moves exactly one street forward. -/
+theorem C03_deal_closed {g : Game} (h : GameInv g) (ht : turn g = Turn.chance) :
+    street g < 3 ∧ Closed g ∧
+    ∀ c, isAllowed g (.draw c) = true → street (act g (.draw c)) = street g + 1 := by
+  obtain ⟨hs, hd⟩ := (C03_turn g).2.1.1 ht
+  obtain ⟨h3, hv⟩ := chance_view h hs hd
+  refine ⟨h3, ?_, fun c hc => (inv_draw h hc).2.2⟩
+  rcases hv with ⟨a, b, c, _, e⟩ | ⟨a, b, _⟩
+  · exact Or.inl ⟨a, b, c, e⟩
+  · exact Or.inr ⟨a, b⟩
+
+/-- **C03, end of the hand.** The hand is over exactly when one player has folded, or the river
+betting is closed (which includes the run-out with both players all-in). -/
+theorem C03_end {g : Game} (h : GameInv g) :
+    turn g = Turn.terminal ↔
+      ((g.s0.state = Status.folding ∧ g.s1.state ≠ Status.folding) ∨
+       (g.s1.state = Status.folding ∧ g.s0.state ≠ Status.folding) ∨
+       (street g = 3 ∧ Closed g)) := by
+  rw [(C03_turn g).1]
+  constructor
+  · intro hs
+    rcases terminal_view h hs with ⟨a, b, _⟩ | ⟨a, b, _⟩ | ⟨s3, n0, n1, _⟩
+    · exact Or.inl ⟨a, b⟩
+    · exact Or.inr (Or.inl ⟨a, b⟩)
+    · right; right
+      refine ⟨s3, ?_⟩
+      have hal : isEveryoneAlright g = true := by unfold mustStop at hs; simpa [s3] using hs
+      have hnf : isEveryoneFolding g = false := by
+        unfold isEveryoneFolding
+        cases h0 : g.s0.state <;> cases h1 : g.s1.state <;> simp_all
+      rw [alright_eq] at hal; rw [folding_eq] at hnf
+      have := chance_pair h.pair hal hnf
+      rcases actor_other_cases g with ⟨ha, ho⟩ | ⟨ha, ho⟩ <;> rw [ha, ho] at this
+      · rcases this with ⟨a, b, c, _, e⟩ | ⟨a, b, _⟩
+        · exact Or.inl ⟨a, b, c, by simpa using e⟩
+        · exact Or.inr ⟨a, b⟩
+      · rcases this with ⟨a, b, c, _, e⟩ | ⟨a, b, _⟩
+        · exact Or.inl ⟨b, a, c.symm, by simpa using e⟩
+        · exact Or.inr ⟨b, a⟩
+  · intro hc
+    unfold mustStop isEveryoneAlright isEveryoneCalling isEveryoneFolding isEveryoneShoving
+      isEveryoneMatched effectiveStake
+    rw [touched_eq]
+    rcases hc with ⟨a, b⟩ | ⟨a, b⟩ | ⟨s3, ⟨a, b, c, d⟩ | ⟨a, b⟩⟩
+    · cases h1 : g.s1.state <;> simp_all
+    · cases h0 : g.s0.state <;> simp_all
+    · simp [s3, a, b, c, d]
+    · simp [s3, a, b]
+
+/-! ## boundedness -/
+
+/-- actions still needed before the street can close because "everyone has acted" -/
+def actsLeft (g : Game) : Nat := thr g + 1 - g.ticker
+
+/-- streets left (weight 8), chips not yet in the pot (weight 2), acts left, hand not over -/
+def μ (g : Game) : Nat :=
+  8 * (3 - street g) + 2 * (2 * STACK - g.pot).toNat + actsLeft g + (if mustStop g then 0 else 1)
+
+theorem pot_le {g : Game} (h : GameInv g) : g.pot ≤ 2 * STACK := by
+  have hp := h.pair; have := h.pot_eq
+  have := hp.sumA; have := hp.sumO; have := hp.stackA; have := hp.stackO
+  omega
+
+theorem live_le (g : Game) : (if mustStop g then 0 else 1) ≤ 1 := by split <;> omega
+
+theorem C03_measure_step {g g' : Game} {a : Action} (h : GameInv g) (hs : step? g a = some g') :
+    μ g' < μ g := by
+  rw [step?_eq h] at hs
+  have ha : isAllowed g a = true := by
+    cases hq : isAllowed g a
+    · simp [hq] at hs
+    · rfl
+  simp only [ha, if_true, Option.some.injEq] at hs
+  subst hs
+  have hns : mustStop g = false := by
+    cases hm : mustStop g
+    · rfl
+    · rw [not_allowed_of_stop a hm] at ha; cases ha
+  have hpot := pot_le h
+  have hpot' := pot_le (inv_act h ha)
+  have hl' := live_le (act g a)
+  unfold μ actsLeft
+  simp only [hns, Bool.false_eq_true, if_false]
+  cases a with
+  | draw c =>
+    obtain ⟨e, _, hst⟩ := inv_draw h ha
+    obtain ⟨_, _, _⟩ := (allowed_draw_iff h c).1 ha
+    have h3 := (chance_view h hns (by assumption)).1
+    have hp : (act g (.draw c)).pot = g.pot := by rw [e]; split <;> rfl
+    have ht : thr (act g (.draw c)) = 2 := by rw [thr_eq, hst]; simp
+    rw [hst, hp, ht]
+    omega
+  | fold =>
+    obtain ⟨e, _, hf⟩ := inv_fold h ha
+    have hm : mustStop (foldActor g) = true := by
+      unfold mustStop isEveryoneAlright; simp [hf]
+    rw [e]; simp only [street_fold, fold_pot, thr_fold, fold_ticker, hm, if_true]; omega
+  | check =>
+    obtain ⟨e, _⟩ := inv_check h ha
+    obtain ⟨hna, hz⟩ := (allowed_check_iff h).1 ha
+    obtain ⟨hna2, hA, hO, hle, hk, hc, hr, hsv⟩ := choice_view h hna
+    obtain ⟨_, ht, _, _⟩ := check_pair h.pair h.phase hna2 (by omega)
+    have htk : ¬ g.ticker > thr g := by simpa using ht
+    rw [e] at hl' ⊢; simp only [street_tick, tick_pot, thr_tick, tick_ticker]; omega
+  | call x =>
+    obtain ⟨e, _⟩ := inv_call h ha
+    obtain ⟨_, hx, hpos, _⟩ := (allowed_call_iff h x).1 ha
+    rw [e] at hl' hpot' ⊢
+    by_cases ht : g.ticker > thr g
+    · simp only [ht, if_true] at hl' hpot' ⊢; simp only [street_bet, bet_pot, thr_bet, bet_ticker] at hpot' ⊢; omega
+    · simp only [ht, if_false] at hl' hpot' ⊢
+      simp only [street_tick, street_bet, tick_pot, bet_pot, thr_tick, thr_bet, tick_ticker, bet_ticker] at hpot' ⊢; omega
+  | raise x =>
+    obtain ⟨e, _⟩ := inv_raise h ha
+    obtain ⟨hna, hlo, _⟩ := (allowed_raise_iff h x).1 ha
+    obtain ⟨_, _, _, hle, _, hc, _, _⟩ := choice_view h hna
+    have hcs := consts_ok
+    rw [e] at hl' hpot' ⊢
+    simp only [street_tick, street_bet, tick_pot, bet_pot, thr_tick, thr_bet, tick_ticker, bet_ticker] at hpot' ⊢; omega
+  | shove x =>
+    obtain ⟨e, _⟩ := inv_shove h ha
+    obtain ⟨hna, hx⟩ := (allowed_shove_iff h x).1 ha
+    obtain ⟨_, _, _, _, hk, _, _, _⟩ := choice_view h hna
+    rw [e] at hl' hpot' ⊢
+    by_cases ht : (other g).state = Status.shoving
+    · simp only [ht, if_true] at hl' hpot' ⊢; simp only [street_bet, bet_pot, thr_bet, bet_ticker] at hpot' ⊢; omega
+    · simp only [ht, if_false] at hl' hpot' ⊢
+      simp only [street_tick, street_bet, tick_pot, bet_pot, thr_tick, thr_bet, tick_ticker, bet_ticker] at hpot' ⊢; omega
+  | blind x => rw [allowed_blind_iff h x] at ha; cases ha
+
+theorem measure_run {g : Game} (h : GameInv g) : ∀ {as : List Action} {g' : Game},
+    run? g as = some g' → as.length + μ g' ≤ μ g := by
+  intro as
+  induction as generalizing g with
+  | nil => intro g' hr; simp only [run?, Option.some.injEq] at hr; subst hr; simp
+  | cons a as ih =>
+    intro g' hr
+    simp only [run?] at hr
+    cases hs : step? g a with
+    | none => rw [hs] at hr; cases hr
+    | some g1 =>
+      rw [hs] at hr
+      have h1 := C03_measure_step h hs
+      have h2 := ih (inv_step h hs) hr
+      simp only [List.length_cons]; omega
+
+theorem μ_root (h0 h1 : Nat) : μ (root h0 h1) = 27 + 2 * (2 * STACK - (SB + BB)).toNat := by
+  have hs := street_root h0 h1
+  have hns : mustStop (root h0 h1) = false := by
+    unfold mustStop isEveryoneFolding; rw [hs]; simp [root]
+  unfold μ actsLeft
+  rw [hns, thr_eq, hs]
+  simp [root, baseTicker_eq]; omega
+
+/-- **C03, boundedness.** Every accepted action strictly lowers the measure `μ`; hence every
+line of play from a freshly dealt hand has at most `μ root = 27 + 2·(2·STACK − SB − BB)` actions
+(421 for the configured game), after which no action is accepted. -/
+theorem C03_bounded {h0 h1 : Nat} (hv : ValidDeal h0 h1) {as : List Action} {g : Game}
+    (hr : run? (root h0 h1) as = some g) :
+    as.length + μ g ≤ 27 + 2 * (2 * STACK - (SB + BB)).toNat := by
+  rw [← μ_root h0 h1]; exact measure_run (inv_root hv) hr
+
+/-- a hand cannot be continued for ever: any action list longer than the bound is rejected -/
+theorem C03_no_long_history {h0 h1 : Nat} (hv : ValidDeal h0 h1) (as : List Action)
+    (hl : 27 + 2 * (2 * STACK - (SB + BB)).toNat < as.length) : run? (root h0 h1) as = none := by
+  cases hr : run? (root h0 h1) as with
+  | none => rfl
+  | some g => have := C03_bounded hv hr; omega
+
+example : 27 + 2 * (2 * STACK - (SB + BB)).toNat = 421 := by decide
+
+/-! ## non-vacuity: concrete states of every turn kind on a multi-street line -/
+
+private def demo (as : List Action) : Option Game := run? (root 0x3 0x30) as
+theorem demo_deal : ValidDeal 0x3 0x30 := by unfold ValidDeal; decide
+
+-- choice node facing a raise after a re-raise: min-raise is call + last raise (30 - 10 = 20)
+example : (demo [.call 1, .check, .draw 0x700, .raise 10, .raise 30]).map
+    (fun g => (turn g, toCall g, toRaise g, (actor g).stack)) = some (Turn.choice 1, 20, 40, 88) := by decide
+example : (demo [.call 1, .check, .draw 0x700, .raise 10, .raise 30]).map
+    (fun g => [isAllowed g (.raise 39), isAllowed g (.raise 40), isAllowed g (.raise 87), isAllowed g (.raise 88),
+               isAllowed g (.shove 88), isAllowed g (.shove 87), isAllowed g (.call 20), isAllowed g (.call 19),
+               isAllowed g .fold, isAllowed g .check, isAllowed g (.blind 1), isAllowed g (.draw 0x1000)]) =
+    some [false, true, true, false, true, false, true, false, true, false, false, false] := by decide
+-- chance node: exactly the well-formed deals (three fresh cards)
+example : (demo [.call 1, .check]).map
+    (fun g => (turn g, [isAllowed g (.draw 0x700), isAllowed g (.draw 0x300), isAllowed g (.draw 0x7),
+               isAllowed g (.draw (2^52 + 0x300)), isAllowed g .check, isAllowed g (.raise 2)])) =
+    some (Turn.chance, [true, false, false, false, false, false]) := by decide
+-- terminal node: nothing
+example : (demo [.raise 5, .fold]).map (fun g => (turn g, isAllowed g .check, isAllowed g (.draw 0x700))) =
+    some (Turn.terminal, false, false) := by decide
+-- facing an all-in: exactly all-in or fold
+example : (demo [.shove 99]).map (fun g => (legal g, isAllowed g (.call 98))) =
+    some ([.shove 98, .fold], false) := by decide
+-- the measure on a concrete line
+example : (demo [.call 1, .check, .draw 0x700, .raise 10]).map μ = some 390 := by decide
+example : μ (root 0x3 0x30) = 421 := by decide
 
 end RP.C03
